@@ -52,7 +52,10 @@ class Obl:
         self.outside = outside
         self.stubs = list(stubs)
         self.assumptions = list(assumptions)
-        self.wall_s = wall_s
+        import os
+
+        cap = int(os.environ.get("VERIF_OBL_WALL", "0") or 0)  # optional cap on every obligation's wall budget (a capped obligation is inconclusive, never a success)
+        self.wall_s = min(wall_s, cap) if cap else wall_s
         self.public_replay = public_replay
         self.witness_rule = witness_rule
         self.unexpected_is_violation = unexpected_is_violation
